@@ -131,6 +131,13 @@ def step (st : St) (ws : List String) : St × String :=
       match initMem memsize with
       | none => ({ img := none, keys := #[], nops := 0 }, "init null EINVAL")
       | some img => finish { img := none, keys := #[], nops := 0 } none img #[] s!"init ok"
+  | ["init", ms, _] =>   -- guard mode of the harness (pat / fake / exact): no meaning for the model
+    match parseNat? ms with
+    | none => (st, "bad-op")
+    | some memsize =>
+      match initMem memsize with
+      | none => ({ img := none, keys := #[], nops := 0 }, "init null EINVAL")
+      | some img => finish { img := none, keys := #[], nops := 0 } none img #[] s!"init ok"
   | _ =>
     match st.img with
     | none => (st, "noinit")
